@@ -1322,6 +1322,177 @@ Proof.
     rewrite !(curved_frame_image m _ _ _ Hm E1 E3), !(mv3_add m), !(mv3_scal m); reflexivity.
 Qed.
 
+(* ================= round 3: slicing of the other classes, Euler frommatrix, factories ================= *)
+
+Lemma tiny_small : 0 < @tiny R _ < 1.
+Proof. unfold tiny, of_Q; cbn [Qnum Qden]; numR. lra. Qed.
+Lemma norm3_unit (v : V3) : dot3 v v = 1 -> norm3 sqrt v = 1.
+Proof. intros Hu. unfold norm3. numR. rewrite Hu. apply sqrt_1. Qed.
+Lemma norm2_unit (v : V2) : dot2 v v = 1 -> norm2 sqrt v = 1.
+Proof. intros Hu. unfold norm2. numR. rewrite Hu. apply sqrt_1. Qed.
+
+(* transform_system never fails on unit vectors *)
+Lemma from_to3_some (f t : V3) : dot3 f f = 1 -> dot3 t t = 1 -> exists m, from_to3 sqrt f t = Some m.
+Proof.
+  intros Hf Ht. unfold from_to3. rewrite (norm3_unit _ Hf), (norm3_unit _ Ht). numR.
+  pose proof tiny_small as [T0 T1].
+  destruct (Rltb_spec 1 tiny) as [H|H]; [lra|]. cbn [orb].
+  destruct (Rltb _ tiny); eexists; reflexivity.
+Qed.
+Lemma from_to2_some (f t : V2) : dot2 f f = 1 -> dot2 t t = 1 -> exists m, from_to2 sqrt f t = Some m.
+Proof.
+  intros Hf Ht. unfold from_to2. rewrite (norm2_unit _ Hf), (norm2_unit _ Ht). numR.
+  pose proof tiny_small as [T0 T1].
+  destruct (Rltb_spec 1 tiny) as [H|H]; [lra|]. cbn [orb]. eexists; reflexivity.
+Qed.
+Lemma tsys3_some (v d : V3) : dot3 v v = 1 -> dot3 d d = 1 -> exists m, tsys3 sqrt v d = Some m.
+Proof.
+  intros Hv Hd. unfold tsys3. rewrite (norm3_unit _ Hv), (norm3_unit _ Hd). numR.
+  destruct (Reqb_spec 1 0) as [H|H]; [lra|]. cbn [andb negb].
+  destruct (allclose3 _ _); [eexists; reflexivity | apply from_to3_some; assumption].
+Qed.
+Lemma tsys2_some (v d : V2) : dot2 v v = 1 -> dot2 d d = 1 -> exists m, tsys2 sqrt v d = Some m.
+Proof.
+  intros Hv Hd. unfold tsys2. rewrite (norm2_unit _ Hv), (norm2_unit _ Hd). numR.
+  destruct (Reqb_spec 1 0) as [H|H]; [lra|]. cbn [andb negb].
+  destruct (allclose2 _ _); [eexists; reflexivity | apply from_to2_some; assumption].
+Qed.
+Lemma e3_unit : dot3 (0, 0, 1) (0, 0, 1) = 1. Proof. unf. ring. Qed.
+Lemma e2_unit2 : dot2 (0, 1) (0, 1) = 1. Proof. unf. ring. Qed.
+
+(* ---- slicing: geometries built with explicit initial vectors are rebuilt identically ---- *)
+(* Parallel3dAxisGeometry.__getitem__ passes the normalised axis and the original det_pos_init / det_axes_init *)
+Lemma par3a_getitem_same (axis pos : V3) (axes : V3 * V3) (tr : V3) (g : par3a) :
+  mk_par3a sqrt axis (Some pos) (Some axes) tr = Some g -> par3a_getitem sqrt g = Some g.
+Proof.
+  intros Hg. unfold par3a_getitem. unfold mk_par3a, obind in Hg.
+  destruct (tsys3 sqrt axis _) as [m|]; [|discriminate Hg]. destruct axes as [a0 a1].
+  destruct (unit_axis sqrt axis) as [ua|] eqn:Eu; [|discriminate Hg].
+  destruct (mk_flat2 sqrt a0 a1) as [d|] eqn:Ed; [|discriminate Hg]. injection Hg as <-.
+  cbn [pa_axis pa_pos_arg pa_axes_arg pa_tr]. unfold mk_par3a, obind.
+  pose proof (unit_axis_some _ _ Eu) as Hu.
+  destruct (tsys3_some ua (0, 0, 1) Hu e3_unit) as [m' Em]. numR. rewrite Em, Ed.
+  unfold unit_axis. numR.
+  destruct (Reqb_spec (norm3 sqrt ua) 0) as [H|H]; [rewrite (norm3_unit _ Hu) in H; lra|].
+  rewrite (sqrt_1_div3 _ Hu). reflexivity.
+Qed.
+
+(* FanBeamGeometry.__getitem__ passes the normalised src_to_det_init and the original det_axis_init *)
+Lemma fan_getitem_same (rs rd : R) (curv : option R) (s2d ax : V2) (tr : V2) (g : fan) :
+  mk_fan sqrt rs rd curv s2d (Some ax) tr = Some g -> fan_getitem sqrt g (Some ax) = Some g.
+Proof.
+  intros Hg. unfold fan_getitem. pose proof (mk_fan_wf _ _ _ _ _ _ _ Hg) as [Hu _].
+  unfold mk_fan, obind in Hg.
+  destruct (tsys2 sqrt s2d _) as [m|]; [|discriminate Hg]. cbv zeta in Hg.
+  destruct (iszero2 s2d) eqn:Ez; [discriminate Hg|].
+  destruct (match curv with None => _ | Some r => _ end) as [d|] eqn:Ed; [|discriminate Hg].
+  numR. destruct (Rltb rs 0) eqn:E1; [discriminate Hg|]. destruct (Rltb rd 0) eqn:E2; [discriminate Hg|].
+  destruct (Reqb rs 0 && Reqb rd 0)%bool eqn:E3; [discriminate Hg|]. injection Hg as <-.
+  cbn [f_rs f_rd f_s2d f_tr f_det] in *. unfold mk_fan, obind.
+  destruct (tsys2_some _ (0, 1) Hu e2_unit2) as [m' Em]. numR. rewrite Em.
+  assert (Hnz : iszero2 (sdiv2 s2d (norm2 sqrt s2d)) = false).
+  { unfold iszero2, eq2. destruct (sdiv2 s2d (norm2 sqrt s2d)) as [x y] eqn:Es. numR.
+    destruct (Reqb_spec x 0) as [Hx|Hx]; destruct (Reqb_spec y 0) as [Hy|Hy]; try reflexivity.
+    subst. unf. lra. }
+  rewrite Hnz, (sqrt_1_div _ Hu).
+  assert (Hdet : match (match d with Flat1 _ => None | Circ _ r => Some r end) with
+                 | None => mk_flat1 sqrt ax | Some r => mk_circ sqrt ax r end = Some d).
+  { destruct curv as [r|].
+    - unfold mk_circ in Ed |- *. destruct (_ =? _)%num; [discriminate Ed|]. destruct (_ <=? _)%num eqn:Er; [discriminate Ed|].
+      injection Ed as <-. rewrite Er. reflexivity.
+    - unfold mk_flat1 in Ed |- *. destruct (_ =? _)%num; [discriminate Ed|]. injection Ed as <-. reflexivity. }
+  rewrite Hdet, E1, E2, E3. reflexivity.
+Qed.
+
+(* ConeBeamGeometry.__getitem__ passes the normalised axis, the original src_to_det_init / det_axes_init, and
+   (since fix 23e139e) the curvature radii as a 2-tuple again -- all detector types *)
+Lemma cone_getitem_same (fixed : bool) (rs rd : R) (curv : curv3) (pitch off : R) (axis sd : V3) (axes : V3 * V3)
+    (tr : V3) (g : cone) :
+  mk_cone sqrt fixed rs rd curv pitch off axis (Some sd) (Some axes) tr = Some g -> cone_getitem sqrt fixed g = Some g.
+Proof.
+  intros Hg. unfold cone_getitem. unfold mk_cone, obind in Hg.
+  destruct (tsys3 sqrt axis _) as [m|]; [|discriminate Hg]. destruct axes as [a0 a1]. cbv zeta in Hg. numR.
+  destruct (Reqb (norm3 sqrt sd) 0) eqn:En; [discriminate Hg|].
+  destruct (unit_axis sqrt axis) as [ua|] eqn:Eu; [|discriminate Hg].
+  destruct (match curv with CFlat => _ | CCyl r => _ | CSph r => _ end) as [d|] eqn:Ed; [|discriminate Hg].
+  destruct (Rltb rs 0) eqn:E1; [discriminate Hg|]. destruct (Rltb rd 0) eqn:E2; [discriminate Hg|].
+  destruct (Reqb rs 0 && Reqb rd 0)%bool eqn:E3; [discriminate Hg|]. injection Hg as <-.
+  cbn [c_rs c_rd c_s2d c_axis c_tr c_pitch c_off c_det c_s2d_arg c_axes_arg]. unfold mk_cone, obind.
+  pose proof (unit_axis_some _ _ Eu) as Hu.
+  destruct (tsys3_some ua (0, 0, 1) Hu e3_unit) as [m' Em]. numR. rewrite Em, En.
+  unfold unit_axis. numR.
+  destruct (Reqb_spec (norm3 sqrt ua) 0) as [H|H]; [rewrite (norm3_unit _ Hu) in H; lra|].
+  rewrite (sqrt_1_div3 _ Hu).
+  assert (Hdet : match (match d with Flat2 _ _ => CFlat | Cyl _ _ r _ => CCyl r | Sph _ _ r _ => CSph r end) with
+                 | CFlat => mk_flat2 sqrt a0 a1 | CCyl r => mk_curved sqrt fixed false a0 a1 r
+                 | CSph r => mk_curved sqrt fixed true a0 a1 r end = Some d).
+  { destruct curv as [|r|r].
+    - unfold mk_flat2 in Ed |- *. destruct (_ =? _)%num; [discriminate Ed|]. injection Ed as <-. reflexivity.
+    - destruct (mk_curved_nonzero _ _ _ _ _ _ Ed) as [_ [_ [_ [mm [_ ->]]]]]. exact Ed.
+    - destruct (mk_curved_nonzero _ _ _ _ _ _ Ed) as [_ [_ [_ [mm [_ ->]]]]]. exact Ed. }
+  rewrite Hdet, E1, E2, E3. reflexivity.
+Qed.
+
+
+(* the default Parallel3dEulerGeometry *)
+Definition par3d_default : @par3d R :=
+  {| p3_pos := (0, 1, 0); p3_tr := (0, 0, 0); p3_det := Flat2 (1, 0, 0) (0, 0, 1) |}.
+
+(* Parallel3dEulerGeometry.frommatrix with a rotation matrix m and translation t: the INITIAL configuration is
+   t + m (default initial configuration), and the Euler rotation acts on it about the translation point *)
+Lemma par3d_frommatrix_spec (m : M3) (tr : V3) (g : par3d) (ph th ps : R * R) (p : dpar3) :
+  is_rot3 m -> par3d_frommatrix sqrt m tr = Some g ->
+  par3d_detpoint g ph th ps p =
+    add3 tr (mv3 (euler3 ph th ps) (mv3 m (par3d_detpoint par3d_default (1, 0) (1, 0) (1, 0) p))) /\
+  p3_tr g = tr.
+Proof.
+  intros Hm Hg. unfold par3d_frommatrix, mk_par3d, obind in Hg.
+  destruct (tsys3 sqrt _ _) as [m0|]; [|discriminate Hg].
+  assert (E1 : dot3 (1, 0, 0) (1, 0, 0) = 1) by (unf; ring).
+  assert (E3 : dot3 (0, 0, 1) (0, 0, 1) = 1) by (unf; ring).
+  pose proof (rot3_unit m _ Hm E1) as U1. pose proof (rot3_unit m _ Hm E3) as U3.
+  unfold mk_flat2 in Hg. numR.
+  destruct (Reqb (norm3 sqrt (cross3 (mv3 m (1, 0, 0)) (mv3 m (0, 0, 1)))) 0); [discriminate Hg|].
+  rewrite !(sqrt_1_div3 _ U1), !(sqrt_1_div3 _ U3) in Hg. injection Hg as <-.
+  split; [|reflexivity].
+  rewrite !par3d_rigid. cbn [p3_pos p3_tr p3_det par3d_default].
+  destruct p as [[[u v] [cu su]] [cv sv]]. cbn [surf3].
+  assert (Ei : euler3 (1, 0) (1, 0) (1, 0) = id3) by (unf; pair_eq; ring).
+  rewrite Ei, mv3_id.
+  assert (Z : forall w : V3, add3 (0, 0, 0) w = w) by (intros [[w0 w1] w2]; unf; pair_eq; ring).
+  rewrite Z. f_equal. f_equal.
+  rewrite !(mv3_add m), !(mv3_scal m), (mv3_sub m).
+  assert (Hz : mv3 m (0, 0, 0) = (0, 0, 0)) by (destruct m as [[[[a1 a2] a3] [[a4 a5] a6]] [[a7 a8] a9]]; unf; pair_eq; ring).
+  rewrite Hz.
+  destruct (mv3 m (0, 1, 0)) as [[x0 x1] x2], (mv3 m (1, 0, 0)) as [[y0 y1] y2], (mv3 m (0, 0, 1)) as [[z0 z1] z2].
+  d3 tr. unf. pair_eq; ring.
+Qed.
+
+(* ---- helical_geometry: offset_along_axis = min_z, pitch = (max_z - min_z) / num_turns: the source runs from
+   the bottom to the top of the volume over the angle range [0, 2 pi num_turns] ---- *)
+Lemma helical_span (g : cone) (zmin zmax turns twopi : R) :
+  turns <> 0 -> twopi <> 0 ->
+  c_off g = fst (helical_params zmin zmax turns) -> c_pitch g = snd (helical_params zmin zmax turns) ->
+  cone_along g 0 twopi 0 = zmin /\ cone_along g (twopi * turns) twopi 0 = zmax.
+Proof.
+  intros Ht Hp Ho Hpi. unfold cone_along, helical_params in *. cbn [fst snd] in *. numR. rewrite Ho, Hpi.
+  split; field; try split; assumption.
+Qed.
+
+(* ---- cone_beam_geometry (3-d): detector half height  sin(arctan t) (rs + rd),  t = |z| / (rs - rho).
+   sin(arctan t) = t / sqrt(1 + t^2); full coverage needs tan(arctan t) = t.  Before the pixel round-up the
+   chosen height is strictly too small for every t > 0 (recorded finding cone-beam-geometry-vertical-coverage) *)
+Lemma cone_vertical_refuted (t rs rd : R) : 0 < t -> 0 < rs + rd ->
+  cone_factory_halfheight sqrt t rs rd < t * (rs + rd).
+Proof.
+  intros Ht Hr. unfold cone_factory_halfheight. numR.
+  assert (H1 : 1 < sqrt (1 + t * t)).
+  { rewrite <- sqrt_1 at 1. apply sqrt_lt_1; nra. }
+  assert (Hq : t / sqrt (1 + t * t) < t).
+  { apply Rmult_lt_reg_r with (sqrt (1 + t * t)); [lra|]. unfold Rdiv. rewrite Rmult_assoc, Rinv_l by lra. nra. }
+  nra.
+Qed.
+
 (* ============ the hand-written model uses the formulas REGENERATED from the source ============ *)
 (* Gen/GeometryFormulas.v is re-emitted from odl/tomo/util/utility.py and odl/tomo/geometry/detector.py on every
    run; a changed entry of a matrix literal or of a surface formula breaks these proofs. *)
